@@ -290,6 +290,44 @@ def generate(tool_src, frame_src, para_src, kws_src=None):
         for rn, ln, extra in [("collides", "kwsCollides", []), ("non_colliding_offsets", "kwsNonCollidingOffsets", []),
                               ("collision_details", "kwsCollisionDetails", []), ("near", "kwsNear", ["safety"])]:
             L.append(kws_inherent(inh2, rn, ln, extra))
+    # LinearAxis / Gantry (tool.rs): base * cart translation * robot pose
+    def product(expr, names):
+        parts = [x.strip() for x in expr.split("*")]
+        if any(x not in names for x in parts) or len(parts) != 3:
+            raise TranslateError("unsupported product `" + expr + "`")
+        t = names[parts[0]]
+        for x in parts[1:]:
+            t = f"({t}.mul {names[x]})"
+        return t
+    lblock = impl_block(re.sub(r"//[^\n]*", "", tool_src), "impl LinearAxis")
+    _, body = method(lblock, "forward")
+    m = re.match(r"^let cart_translation = match self\.axis \{ (.*) \}; let robot_pose = self\.robot\.forward\(joint_angles\); ([^;{}]*)$", body)
+    if not m:
+        raise TranslateError("LinearAxis::forward changed: " + body)
+    arms = []
+    for pat, val in re.findall(r"(\d+|_) => (Translation3::new\([^)]*\)|panic!\([^)]*\)),", m.group(1)):
+        if val.startswith("panic!"):
+            arms.append(f"| {pat} => none")
+        else:
+            comps = [c.strip() for c in val[len("Translation3::new("):-1].split(",")]
+            if len(comps) != 3 or any(c not in ("distance", "0.0") for c in comps):
+                raise TranslateError("LinearAxis::forward: unsupported translation " + val)
+            arms.append(f"| {pat} => some ⟨" + ", ".join("distance" if c == "distance" else "0" for c in comps) + "⟩")
+    if not arms or not arms[-1].startswith("| _"):
+        raise TranslateError("LinearAxis::forward: no catch-all arm")
+    prod = product(m.group(2), {"self.base": "base", "cart_translation": "(Iso.ofTranslation v)", "robot_pose": "(robot.forward joint_angles)"})
+    L.append("/-- `LinearAxis::forward` (`none` = the panic on an invalid axis index) -/\n"
+             "def linearAxisForwardSrc (robot : Kin R) (axis : Nat) (base : Iso R) (distance : R) (joint_angles : J6 R) : Option (Iso R) :=\n"
+             "  let cart : Option (V3 R) := match axis with\n    " + " ".join(arms) + "\n"
+             f"  cart.map (fun v => {prod})\n")
+    gblock = impl_block(re.sub(r"//[^\n]*", "", tool_src), "impl Gantry")
+    _, body = method(gblock, "forward")
+    m = re.match(r"^let robot_pose = self\.robot\.forward\(joint_angles\); ([^;{}]*)$", body)
+    if not m:
+        raise TranslateError("Gantry::forward changed: " + body)
+    prod = product(m.group(1), {"self.base": "base", "translation": "(Iso.ofTranslation translation)", "robot_pose": "(robot.forward joint_angles)"})
+    L.append("/-- `Gantry::forward` -/\ndef gantryForwardSrc (robot : Kin R) (base : Iso R) (translation : V3 R) (joint_angles : J6 R) : Iso R :=\n"
+             f"  {prod}\n")
     L.append("end Opw.SrcWrap")
     return "\n".join(L) + "\n"
 
